@@ -105,4 +105,190 @@ theorem no_temporaries (o : Ops V) (rpn : List String) (st : St V) (h : Inv n st
   obtain ⟨p, ⟨_, hp⟩, rfl⟩ := hnm
   simpa using hp
 
+/-! ## Consequences read on the code's table: `read o st m` is what `getAnalyticalFeature(m)` returns -/
+
+/-- every observation carries exactly one value per listed name, and a listed (non-virtual) name reads as a
+full column: one value per observation -/
+theorem aligned_reads (o : Ops V) (st : St V) (h : Inv n st) :
+    (∀ r ∈ st.rows, r.length = (names st).length) ∧ (names st).Nodup ∧
+    ∀ nm ∈ names st, reserved nm = false → ∃ col, read o st nm = .ok col ∧ col.length = n := by
+  refine ⟨fun r hr => by rw [h.rows r hr, h.dico_length], h.nodup, ?_⟩
+  intro nm hnm hr
+  have hs := find_isSome_of_mem st.dico nm hnm
+  rw [read_abs o h, aread_feature o _ hr, abs_lookup]
+  cases hf : find st.dico nm with
+  | none => rw [hf] at hs; cases hs
+  | some idx => exact ⟨_, rfl, by rw [colAt_length, h.size]⟩
+
+/-- create of a new name: it returns, the new name reads as the initial values, every other name
+(feature or virtual) reads as before. -/
+theorem read_after_create (o : Ops V) (st : St V) (h : Inv n st) (nm : String) (init : Init V)
+    (hr : reserved nm = false) (hn : n ≠ 0) (hnew : nm ∉ names st)
+    (hok' : match init with | .scalar _ => True | .list l => n ≤ l.length) :
+    (createC nm init st).1 = .ok () ∧ read o (createC nm init st).2 nm = .ok (initCol n init) ∧
+    ∀ m, m ≠ nm → read o (createC nm init st).2 m = read o st m := by
+  have hs := sim_create (n := n) nm init hok'
+  obtain ⟨e1, e2⟩ := sim_snd hs h
+  have hi := (hs st h).1
+  have hl : lookup (abs st).cols nm = none := by
+    rw [abs_lookup, find_none_of_not_mem _ _ hnew]; rfl
+  have hA := createA_new (abs st) nm init hr (by rw [abs_size h]; exact hn) hl (by rw [abs_size h]; exact hok')
+  rw [hA] at e1 e2
+  simp only at e1 e2
+  refine ⟨e1.symm, ?_, ?_⟩
+  · rw [read_abs o hi, ← e2, aread_feature o _ hr]
+    simp only [lookup_append_new _ _ _ _ hl, if_true, abs_size h]
+  · intro m hm
+    rw [read_abs o hi, read_abs o h, ← e2]
+    apply aread_congr <;> try rfl
+    simp only [lookup_append_new _ _ _ _ hl, hm, if_false]
+
+/-- creating a name that is already listed writes nothing at all -/
+theorem create_existing_noop (st : St V) (h : Inv n st) (nm : String) (init : Init V)
+    (hex : nm ∈ names st) (hr : reserved nm = false) (hn : n ≠ 0) : createC nm init st = (.ok (), st) := by
+  unfold createC
+  have h1 : st.rows.isEmpty = false := by rw [isEmpty_rows h]; simpa using hn
+  have h2 : hasC st nm = true := by simp [hasC, find_isSome_of_mem st.dico nm hex]
+  simp [hr, h1, h2]
+
+/-- update / bracket assignment of a listed name: it returns, the name reads as the new values (a scalar is
+broadcast), every other name reads as before. -/
+theorem read_after_update (o : Ops V) (st : St V) (h : Inv n st) (nm : String) (init : Init V)
+    (hr : reserved nm = false) (hn : n ≠ 0) (hex : nm ∈ names st)
+    (hok : match init with | .scalar _ => True | .list l => n ≤ l.length) :
+    (updateC nm init st).1 = .ok () ∧ read o (updateC nm init st).2 nm = .ok (initCol n init) ∧
+    ∀ m, m ≠ nm → read o (updateC nm init st).2 m = read o st m := by
+  have hs := sim_update (n := n) nm init
+  obtain ⟨e1, e2⟩ := sim_snd hs h
+  have hi := (hs st h).1
+  have hsome := find_isSome_of_mem st.dico nm hex
+  cases hf : find st.dico nm with
+  | none => rw [hf] at hsome; cases hsome
+  | some idx =>
+    have hl : lookup (abs st).cols nm = some (colAt st.rows idx) := by rw [abs_lookup, hf]; rfl
+    have hA := updateA_ok (abs st) nm init _ (by rw [abs_size h]; exact hn) hl (by rw [abs_size h]; exact hok)
+    rw [hA] at e1 e2
+    simp only at e1 e2
+    refine ⟨e1.symm, ?_, ?_⟩
+    · rw [read_abs o hi, ← e2, aread_feature o _ hr]
+      simp only [lookup_replaceCol, if_true, hl, Option.map_some]
+      congr 1
+      cases init with
+      | scalar v => simp [updCol, initCol, colAt_length, h.size]
+      | list l =>
+        simp only at hok
+        simp only [updCol, initCol, overwrite, colAt_length, h.size]
+        rw [List.drop_eq_nil_of_le (by rw [colAt_length, h.size]; exact hok)]
+        simp
+    · intro m hm
+      rw [read_abs o hi, read_abs o h, ← e2]
+      apply aread_congr <;> try rfl
+      simp only [lookup_replaceCol, hm, if_false]
+
+/-- writing one cell of a listed feature: that cell changes, every other cell of every name reads as before -/
+theorem read_after_setObs (o : Ops V) (st : St V) (h : Inv n st) (nm : String) (i : Nat) (v : V)
+    (hr : reserved nm = false) (hi : i < n) (hex : nm ∈ names st) :
+    (setObsC nm i v st).1 = .ok () ∧
+    (∃ col, read o st nm = .ok col ∧ read o (setObsC nm i v st).2 nm = .ok (col.set i v)) ∧
+    ∀ m, m ≠ nm → read o (setObsC nm i v st).2 m = read o st m := by
+  have hs := sim_setObs (n := n) nm i v
+  obtain ⟨e1, e2⟩ := sim_snd hs h
+  have hinv := (hs st h).1
+  have hsome := find_isSome_of_mem st.dico nm hex
+  cases hf : find st.dico nm with
+  | none => rw [hf] at hsome; cases hsome
+  | some idx =>
+    have hl : lookup (abs st).cols nm = some (colAt st.rows idx) := by rw [abs_lookup, hf]; rfl
+    have hA := setObsA_ok (abs st) nm i v _ hr hl (by rw [colAt_length, h.size]; exact hi)
+    rw [hA] at e1 e2
+    simp only at e1 e2
+    refine ⟨e1.symm, ⟨colAt st.rows idx, ?_, ?_⟩, ?_⟩
+    · rw [read_abs o h, aread_feature o _ hr, hl]
+    · rw [read_abs o hinv, ← e2, aread_feature o _ hr]
+      simp only [lookup_replaceCol, if_true, hl, Option.map_some]
+    · intro m hm
+      rw [read_abs o hinv, read_abs o h, ← e2]
+      apply aread_congr <;> try rfl
+      simp only [lookup_replaceCol, hm, if_false]
+
+/-- deleting a listed feature: it returns, the name is no longer a feature, and what is read under every
+other name is unchanged — whatever the position of the deleted column. -/
+theorem read_after_remove (o : Ops V) (st : St V) (h : Inv n st) (nm : String)
+    (hr : reserved nm = false) (hex : nm ∈ names st) :
+    (removeC nm st).1 = .ok () ∧ read o (removeC nm st).2 nm = .error .unknown ∧
+    nm ∉ names (removeC nm st).2 ∧
+    ∀ m, m ≠ nm → read o (removeC nm st).2 m = read o st m := by
+  have hs := sim_remove (V := V) (n := n) nm
+  obtain ⟨e1, e2⟩ := sim_snd hs h
+  have hinv := (hs st h).1
+  have hsome : (lookup (abs st).cols nm).isSome = true := by
+    rw [abs_lookup]; simpa using find_isSome_of_mem st.dico nm hex
+  have hA := removeA_ok (abs st) nm hsome
+  rw [hA] at e1 e2
+  simp only at e1 e2
+  refine ⟨e1.symm, ?_, ?_, ?_⟩
+  · rw [read_abs o hinv, ← e2, aread_feature o _ hr]
+    simp only [lookup_filter_self]
+  · rw [← names_abs, ← e2]
+    simp only [anames, List.mem_map, List.mem_filter, not_exists, not_and]
+    intro p hp e
+    simp [e] at hp
+  · intro m hm
+    rw [read_abs o hinv, read_abs o h, ← e2]
+    apply aread_congr <;> try rfl
+    simp only [lookup_filter_ne _ _ _ hm]
+
+/-- the four table primitives never touch a coordinate or a timestamp (only `setObs` on `x`/`y`/`z` does) -/
+theorem prims_keep_coords (st : St V) (nm : String) (init : Init V) (i : Nat) (v : V) (hr : reserved nm = false) :
+    (∀ c, (createC nm init st).2.coord c = st.coord c) ∧ (∀ c, (updateC nm init st).2.coord c = st.coord c) ∧
+    (∀ c, (removeC nm st).2.coord c = st.coord c) ∧ (∀ c, (setObsC nm i v st).2.coord c = st.coord c) := by
+  unfold reserved at hr
+  simp only [Bool.or_eq_false_iff] at hr
+  obtain ⟨⟨⟨⟨⟨hx, hy⟩, hz⟩, _⟩, _⟩, _⟩ := hr
+  refine ⟨?_, ?_, ?_, ?_⟩ <;> intro c
+  · unfold createC
+    split <;> (try rfl)
+    split <;> (try rfl)
+    split <;> (try rfl)
+    split <;> cases c <;> rfl
+  · unfold updateC
+    split <;> (try rfl)
+    split <;> (try rfl)
+    split <;> (try rfl)
+    split <;> cases c <;> rfl
+  · unfold removeC
+    split <;> (try rfl)
+    split <;> cases c <;> rfl
+  · unfold setObsC
+    simp only [hx, hy, hz, Bool.or_false, Bool.false_eq_true, if_false]
+    split <;> (try rfl)
+    split <;> (try rfl)
+    split <;> cases c <;> rfl
+
+/-! ## Non-vacuity: an explicit history with delete-then-recreate, over the integers -/
+
+/-- integer arithmetic, `-1000` standing for NaN; only the literals `2` and `3` parse -/
+def iops : Ops Int :=
+  { zero := 0, nan := -1000, add := (· + ·), sub := (· - ·), mul := (· * ·), ofNat := Int.ofNat,
+    isNaN := fun v => v == -1000, parse := fun s => if s == "2" then some 2 else if s == "3" then some 3 else none }
+
+def t0 : St Int := fresh [10, 11, 12] [20, 22, 24] [30, 33, 36] [1000, 1001, 1002]
+
+/-- create a, create b, `track["c"] = [4,5,6]`, delete a (a non-last column), recreate a, `b = c*2 + a` -/
+def hist : List (Op Int) :=
+  [.create "a" (.list [1, 2, 3]), .create "b" (.scalar 7), .setItem "c" (.list [4, 5, 6]),
+   .remove "a", .create "a" (.scalar 0), .expr ["b", "c", "2", "*", "a", "+", "="]]
+
+example : Inv 3 t0 := inv_fresh [10, 11, 12] _ _ _ rfl rfl rfl
+example : ∀ op ∈ hist, OpOK 3 op := by
+  intro op hop
+  simp only [hist, List.mem_cons, List.not_mem_nil, or_false] at hop
+  rcases hop with rfl | rfl | rfl | rfl | rfl | rfl <;> simp [OpOK]
+example : (runOps iops hist t0).dico = [("c", 0), ("a", 1), ("b", 2)] := by decide +kernel
+example : (runOps iops hist t0).rows = [[4, 0, 8], [5, 0, 10], [6, 0, 12]] := by decide +kernel
+example : (runOps iops hist (abs t0)).cols = [("c", [4, 5, 6]), ("a", [0, 0, 0]), ("b", [8, 10, 12])] := by decide +kernel
+/-- an expression that raises after its first temporary exists: `c = a*2 + nosuch` -/
+example : ((trace iops [.create "a" (.scalar 5), .expr ["c", "a", "2", "*", "nosuch", "+", "="]] t0).map
+    (fun r => (r.1.toOption.isSome, r.2.dico))) = [(true, [("a", 0)]), (false, [("a", 0)])] := by decide +kernel
+
 end TV.C01
